@@ -210,15 +210,12 @@ class PiecewiseConstantBirthDeath(Distribution):
             )
         )
 
-    def p0(self, A, B, t, t_i):
+    def p0(self, lambda_, mu, psi, A, B, t, t_i):
         term = torch.exp(A * (t - t_i)) * (1.0 + B)
         one_minus_Bi = 1.0 - B
         return (
-            self.lambda_
-            + self.mu
-            + self.psi
-            - A * (term - one_minus_Bi) / (term + one_minus_Bi)
-        ) / (2.0 * self.lambda_)
+            lambda_ + mu + psi - A * (term - one_minus_Bi) / (term + one_minus_Bi)
+        ) / (2.0 * lambda_)
 
     def log_p(self, t, t_i, rho):
         """Probability density of lineage alive between time t and t_i has no
@@ -348,6 +345,9 @@ class PiecewiseConstantBirthDeath(Distribution):
             if self.removal_probability is not None:
                 r = self.removal_probability.gather(-1, indices_y)
                 p0 = self.p0(
+                    self.lambda_.gather(-1, indices_y),
+                    self.mu.gather(-1, indices_y),
+                    self.psi.gather(-1, indices_y),
                     A.gather(-1, indices_y),
                     B.gather(-1, indices_y),
                     torch.gather(times[..., 1:], -1, indices_y),
@@ -403,15 +403,21 @@ class PiecewiseConstantBirthDeath(Distribution):
         )
 
         if self.removal_probability is not None and m > 1:
-            r = self.removal_probability.gather(-1, indices_y)[..., 1:]
-            p0 = self.p0(A[..., 1:], B[..., 1:], times[..., 1:-1], times[..., 2:])
-            log_p += (
-                r[..., 0]
-                * self.log_q(A[..., 1:], B[..., 1:], times[..., 1:-1], times[..., 2:])
-                + torch.log(1.0 - r[..., 1:])
-                + (N[..., :-1] - r[..., 0])
-                * torch.log(r[..., 1:] + (1 - r[..., 1:]) * p0)
+            # a tip sampled at the sampling event of boundary i stays infectious with
+            # probability 1-r and must then leave no sampled descendant
+            r = self.removal_probability[..., :-1]
+            p0 = self.p0(
+                self.lambda_[..., 1:],
+                self.mu[..., 1:],
+                self.psi[..., 1:],
+                A[..., 1:],
+                B[..., 1:],
+                times[..., 2:],
+                times[..., 1:-1],
             )
+            log_p += (
+                N[..., :-1] * (rho[..., :-1] > 0.0) * torch.log(r + (1.0 - r) * p0)
+            ).sum(-1)
 
         mask = (N > 0).logical_and(rho > 0.0)
         if torch.any(mask):
